@@ -93,6 +93,18 @@ pub fn adv_catalogue() -> Vec<AdvItem> {
         AdvItem { name: "handshake-done-in-long-header-space", spaces: &[0, 1], attacker: 2, payload: |_a| frame(0x1e, &[], b""), allowed: &[PV], rfc: "12.4" },
         AdvItem { name: "reset-stream-in-long-header-space", spaces: &[0, 1], attacker: 2, payload: |_a| frame(0x04, &[0, 1, 0], b""), allowed: &[PV], rfc: "12.4" },
         AdvItem { name: "app-close-in-long-header-space", spaces: &[0, 1], attacker: 2, payload: |_a| frame(0x1d, &[1, 0], b""), allowed: &[PV], rfc: "12.4/12.5: CONNECTION_CLOSE of type 0x1d only in 0-RTT/1-RTT" },
+        // the remaining frame types of RFC 9000 Table 3 that are not marked I or H
+        AdvItem { name: "stop-sending-in-long-header-space", spaces: &[0, 1], attacker: 2, payload: |_a| frame(0x05, &[0, 1], b""), allowed: &[PV], rfc: "12.4" },
+        AdvItem { name: "new-token-in-long-header-space", spaces: &[0, 1], attacker: 1, payload: |_a| frame(0x07, &[4], b"tokn"), allowed: &[PV], rfc: "12.4" },
+        AdvItem { name: "max-stream-data-in-long-header-space", spaces: &[0, 1], attacker: 2, payload: |_a| frame(0x11, &[0, 100_000], b""), allowed: &[PV], rfc: "12.4" },
+        AdvItem { name: "max-streams-bidi-in-long-header-space", spaces: &[0, 1], attacker: 2, payload: |_a| frame(0x12, &[100], b""), allowed: &[PV], rfc: "12.4" },
+        AdvItem { name: "max-streams-uni-in-long-header-space", spaces: &[0, 1], attacker: 2, payload: |_a| frame(0x13, &[100], b""), allowed: &[PV], rfc: "12.4" },
+        AdvItem { name: "data-blocked-in-long-header-space", spaces: &[0, 1], attacker: 2, payload: |_a| frame(0x14, &[1000], b""), allowed: &[PV], rfc: "12.4" },
+        AdvItem { name: "stream-data-blocked-in-long-header-space", spaces: &[0, 1], attacker: 2, payload: |_a| frame(0x15, &[0, 1000], b""), allowed: &[PV], rfc: "12.4" },
+        AdvItem { name: "streams-blocked-bidi-in-long-header-space", spaces: &[0, 1], attacker: 2, payload: |_a| frame(0x16, &[10], b""), allowed: &[PV], rfc: "12.4" },
+        AdvItem { name: "streams-blocked-uni-in-long-header-space", spaces: &[0, 1], attacker: 2, payload: |_a| frame(0x17, &[10], b""), allowed: &[PV], rfc: "12.4" },
+        AdvItem { name: "retire-connection-id-in-long-header-space", spaces: &[0, 1], attacker: 2, payload: |_a| frame(0x19, &[0], b""), allowed: &[PV], rfc: "12.4" },
+        AdvItem { name: "path-response-in-long-header-space", spaces: &[0, 1], attacker: 2, payload: |_a| frame(0x1b, &[], &[1, 2, 3, 4, 5, 6, 7, 8]), allowed: &[PV], rfc: "12.4" },
         AdvItem { name: "path-challenge-in-long-header-space", spaces: &[0, 1], attacker: 2, payload: |_a| frame(0x1a, &[], &[1, 2, 3, 4, 5, 6, 7, 8]), allowed: &[PV], rfc: "12.4" },
         // 1-RTT rule breaches
         AdvItem { name: "handshake-done-to-server", spaces: &[2], attacker: 0, payload: |_a| frame(0x1e, &[], b""), allowed: &[PV], rfc: "19.20: a server MUST treat receipt of HANDSHAKE_DONE as PROTOCOL_VIOLATION" },
